@@ -307,7 +307,14 @@ func c20FitTable(r *Run, fn *ssa.Function, k string, ft c20Fit, sthSize string) 
 				fmt.Sprintf("the end of the range is reset to the verified tree size: %v; statement (iff it is 0 or beyond that size, as Prepare does) says %v", got, want))
 		})
 	if err != nil {
-		r.Fail(k+"range-end-fit", r.Where(ft.fits[0]), "undecided: "+ft.name+".EndIndex is set to the verified tree size, but not under a test of it against 0 and that size: "+err.Error())
+		which, why := "range-end-fit", "undecided: "
+		switch {
+		case strings.Contains(err.Error(), "atom zero"):
+			which, why = "range-end-fit[EndIndex=0]", "an end of 0 ('up to the tree size', what continuous mode asks for) is not tested, so it is not replaced by the verified tree size and the range / the reported position end at 0: "
+		case strings.Contains(err.Error(), "atom big"):
+			which, why = "range-end-fit[EndIndex>size]", "an end beyond the verified tree size is not tested, so entries beyond what was verified may be transferred / reported: "
+		}
+		r.Fail(k+which, r.Where(ft.fits[0]), why+ft.name+".EndIndex is set to the verified tree size, but not under a test of it against 0 and against that size: "+err.Error())
 		return
 	}
 	r.Valuations += res.Valuations
